@@ -754,8 +754,9 @@ fn onehop(ctx: &mut RunCtx, w: &mut World) -> RunResult {
         }
         let eg = ifs[ctx.ch.idx(ifs.len())];
         let nbr = w.m.ases[src].ifs[&eg].nbr;
-        let kind = ctx.ch.draw(6);
+        let kind = ctx.ch.draw(7);
         let mut key = w.m.ases[src].key;
+        let mut dst = nbr;
         let mut egress = eg;
         let exp = [255u8, 0, 10][ctx.ch.idx(3)];
         let life = ((exp as u64 + 1) * 675 / 2) as u32;
@@ -769,22 +770,51 @@ fn onehop(ctx: &mut RunCtx, w: &mut World) -> RunResult {
             4 => {
                 egress = 60_000; // interface the AS does not have
             }
+            6 => {
+                // addressed to an AS other than the neighbour the single hop leads to
+                dst = ctx.ch.idx(w.m.ases.len());
+                if dst == nbr {
+                    dst = src;
+                }
+            }
             _ => {}
         }
         let path = OneHopPath::new(egress, ctx.ch.draw(65536) as u16, ts, key, exp);
-        let pkt = ScionRawPacket::new(addr(w.m.isd_asn(src), 1), addr(w.m.isd_asn(nbr), 2), DpPath::OneHop(path), ProtocolNumber::Other(253), b"onehop".to_vec());
+        let pkt = ScionRawPacket::new(addr(w.m.isd_asn(src), 1), addr(w.m.isd_asn(dst), 2), DpPath::OneHop(path), ProtocolNumber::Other(253), b"onehop".to_vec());
         let Ok(v) = pkt.try_encode_to_owned_view() else { continue };
         let bytes = v.as_slice().to_vec();
         ctx.fault("one-hop-packet");
         let r_ref = walk(w, false, &bytes, src, 0, now, &plan, 8);
         let r_real = walk(w, true, &bytes, src, 0, now, &plan, 8);
-        let what = ["honest", "wrong key", "expired", "egress link down", "unknown egress", "honest"][kind as usize];
+        let what = ["honest", "wrong key", "expired", "egress link down", "unknown egress", "honest", "addressed to another AS"][kind as usize];
         ctx.log(format!("onehop {} {}#{egress}->{}: ref={} real={}", what, w.m.name(src), w.m.name(nbr), r_ref.fin.class(), r_real.fin.class()));
         ctx.checked();
         if matches!(r_ref.fin, Final::Delivered(_)) {
             ctx.probe("one-hop-delivered");
         }
-        compare(ctx, w, "one-hop", "[onehop]", if kind == 0 || kind == 5 { "" } else { " [one-hop path that must be refused]" }, &r_real, &r_ref)?;
+        let tag = match kind {
+            0 | 5 => "",
+            6 => " [one-hop packet addressed to an AS the hop does not lead to]",
+            _ => " [one-hop path that must be refused]",
+        };
+        compare(ctx, w, "one-hop", "[onehop]", tag, &r_real, &r_ref)?;
+    }
+    // empty-path (AS-internal) packets: delivered only if addressed to the AS they are in
+    for _ in 0..1 + ctx.ch.idx(2) {
+        let at = ctx.ch.idx(w.m.ases.len());
+        let to = if ctx.ch.chance(1, 3) { at } else { ctx.ch.idx(w.m.ases.len()) };
+        let pkt = ScionRawPacket::new(addr(w.m.isd_asn(at), 1), addr(w.m.isd_asn(to), 2), DpPath::Empty, ProtocolNumber::Other(253), b"as-internal".to_vec());
+        let Ok(v) = pkt.try_encode_to_owned_view() else { continue };
+        let bytes = v.as_slice().to_vec();
+        ctx.fault("empty-path-packet");
+        let r_ref = walk(w, false, &bytes, at, 0, T0, &[], 4);
+        let r_real = walk(w, true, &bytes, at, 0, T0, &[], 4);
+        ctx.log(format!("empty path in {} addressed to {}: ref={} real={}", w.m.name(at), w.m.name(to), r_ref.fin.class(), r_real.fin.class()));
+        ctx.checked();
+        if at != to {
+            ctx.probe("empty-path-foreign-destination");
+        }
+        compare(ctx, w, "empty-path", "[empty]", "", &r_real, &r_ref)?;
     }
     Ok(())
 }
